@@ -62,7 +62,11 @@ manifest = {
                           'counter-models replayed on the real code under /venv/bin/python',
     }],
     'checks': checks,
-    'notes': 'See DESIGN.md. Exit codes of ./check: 0 held, 1 violation (VIOLATION line), 2 undecided, 3 checker error.',
+    'notes': 'See DESIGN.md (section 14 is the build report). Exit codes of ./check: 0 held, 1 violation (VIOLATION line), '
+             '2 undecided, 3 checker error.  Recorded findings and repaired defects: known_findings.txt (read-only at run time; '
+             'fix commits in /repo: 27eb052, 0e2a77f, 7f24f69, ab695da, a163998).  Seeded changes and what catches them: '
+             'seeded/RESULTS.md; tools/run_seeds.sh re-applies every one of them to /repo in turn (and reverts) and runs the '
+             'check of its property.',
     'not_applicable': na,
 }
 json.dump(manifest, open(os.path.join(HERE, 'MANIFEST.json'), 'w'), indent=1)
